@@ -325,9 +325,10 @@ func (g *gen) node(depth int) *Spec {
 			continue
 		}
 		name := sf.Name
-		dens := g.o.Density
-		if depth < g.o.MaxDepth && dens > 1 {
-			dens = (dens + 1) / 2 // thinner below the root, or trees grow exponentially
+		// thinner at every level below the root, or trees grow exponentially
+		dens := g.o.Density >> (g.o.MaxDepth - depth)
+		if dens < 1 {
+			dens = 1
 		}
 		if g.n(16, "pop-"+name) >= dens {
 			continue
